@@ -3,8 +3,10 @@
 # confirms its demonstration in the worktree and runs the named checks against it through an overlay (/repo untouched)
 export GOFLAGS=-mod=mod GOPROXY=off GOSUMDB=off GOTOOLCHAIN=local
 ID=$1; shift
-W=/tmp/seed/$ID
-D=/verif/seeded/$ID
+# SEED_ROOT / SEED_SUFFIX: a later round keeps its worktrees in another directory and files its changes as seeded/<ID><suffix>
+ROOT=${SEED_ROOT:-/tmp/seed}
+W=$ROOT/$ID
+D=/verif/seeded/$ID${SEED_SUFFIX:-}
 mkdir -p $D && cp -r $W/SEEDED/. $D/
 cd $W || exit 2
 files=$(git diff --name-only | grep -v '^SEEDED' | grep '\.go$')
@@ -12,13 +14,13 @@ echo "== $ID changed files: $files"
 # demonstration: changed code must fail, original must pass
 for f in $D/demonstration/*_test.go; do [ -f "$f" ] && cp $f $W/server/ ; done
 res_changed=$(go test -vet=off -count=1 -run 'TestSeededDemo' ./server/ 2>&1 | tail -1)
-git diff -- $files > /tmp/seed/$ID.patch
-git apply -R /tmp/seed/$ID.patch
+git diff -- $files > $ROOT/$ID.patch
+git apply -R $ROOT/$ID.patch
 res_orig=$(go test -vet=off -count=1 -run 'TestSeededDemo' ./server/ 2>&1 | tail -1)
-git apply /tmp/seed/$ID.patch
+git apply $ROOT/$ID.patch
 rm -f $W/server/seeded_demo_test.go $W/server/append.aof.* $W/server/rewrite.aof*
 echo "== $ID demonstration: changed code -> $res_changed | original -> $res_orig"
-ov=/tmp/seed/$ID.overlay.json
+ov=$ROOT/$ID.overlay.json
 python3 - "$W" $files > $ov <<'P'
 import json,sys
 w=sys.argv[1]
